@@ -44,7 +44,7 @@ import (
 // modelFixed selects the start-up model the implementation is compared with: 1 = the repaired
 // code (write <name>.tmp, fsync, close, rename), 0 = the code before the repair (os.WriteFile in
 // place; kept in the Lean model for the counterexample theorem).
-const modelFixed = 0
+const modelFixed = 1
 
 const (
 	stateFile  = "obfs4_state.json"
